@@ -1,28 +1,276 @@
 import DracoProofs.Varint
+import DracoProofs.Scalar
+import DracoProofs.BitBuf
+import DracoProofs.FastDiv
+import DracoProofs.Rabs
+import DracoProofs.Yields
+import DracoProofs.Adaptive
+import DracoProofs.RansBit
+import DracoProofs.Folded
+import DracoProofs.BitTwiddle
+import DracoProofs.FoldedInst
+import DracoProofs.Direct
+import DracoProofs.SymbolBit
 import Generated.Constants
+import Generated.FastDivTab
 /-
-  C17 — bit, varint and buffer primitives round-trip every value (property theorems only).
+  C17 — "Every primitive writer/reader pair of the bitstream layer is an exact inverse for all
+  values: variable-length integers of every width and sign, byte-aligned scalars, bit sequences
+  with and without stored size, and the binary coders (rANS bit coder, adaptive rANS bit coder,
+  direct bit coder, folded-integer coder, symbol bit coder) for every bit sequence and bit
+  width 1..32.  Reading past the written data fails or yields zeros but never touches memory
+  outside the buffer."
+
+  Property theorems only; helper lemmas live in DracoProofs/.  Each theorem is followed by a
+  non-vacuity example.  Round trips have the form `dec (enc x ++ rest) = some (x, rest)`,
+  which also states that the decoder stops exactly at the end of what the encoder wrote.
+  Memory safety of the readers is structural in the model: a reader is a total function of the
+  byte list it is given and has no other access to memory.
 -/
 namespace Draco.C17
 open Draco
 
-/-- Unsigned varints of every width the code instantiates decode to the value written and
-    leave the reader exactly behind the encoding. -/
-theorem varint_roundtrip (w v : Nat) (rest : Bytes) (hw : w = 8 ∨ w = 16 ∨ w = 32 ∨ w = 64)
-    (hv : v < 2^w) : decVarint w (encVarint v ++ rest) = some (v, rest) := by
-  unfold decVarint encVarint varintMaxDepth
-  rcases hw with h | h | h | h <;> subst h
-  · exact decVarintAux_enc 8 rest 2 10 v (by decide) (by simp at hv ⊢; omega) (by decide) hv
-  · exact decVarintAux_enc 16 rest 3 10 v (by decide) (by simp at hv ⊢; omega) (by decide) hv
-  · exact decVarintAux_enc 32 rest 5 10 v (by decide) (by simp at hv ⊢; omega) (by decide) hv
-  · exact decVarintAux_enc 64 rest 10 10 v (by decide) (by simp at hv ⊢; omega) (by decide) hv
+/-! ### (a) varints, zig-zag, byte-aligned scalars -/
 
-example : decVarint 32 (encVarint 300 ++ [7, 8]) = some (300, [7, 8]) := by decide
+/-- `DecodeVarint<uintW_t>` inverts `EncodeVarint` for every value of every unsigned width -/
+theorem varint_roundtrip {w : Nat} (hw : w ∈ [8, 16, 32, 64]) (v : Nat) (hv : v < 2^w)
+    (rest : Bytes) : decVarint w (encVarint v ++ rest) = some (v, rest) :=
+  decVarint_enc hw v hv rest
 
-/-- The depth limits compiled into the decoder (probed from the working tree) are the ones the
-    model uses: an encoder output is never rejected for its length. -/
+example : decVarint 32 (encVarint 300 ++ [7]) = some (300, [7]) :=
+  varint_roundtrip (by simp) 300 (by decide) [7]
+
+/-- the encoder never exceeds the decoder's recursion budget -/
+theorem varint_length {w : Nat} (hw : w ∈ [8, 16, 32, 64]) (v : Nat) (hv : v < 2^w) :
+    (encVarint v).length ≤ varintMaxDepth w :=
+  encVarint_length hw v hv
+
+example : (encVarint (2^64 - 1)).length ≤ varintMaxDepth 64 :=
+  varint_length (by simp) _ (by decide)
+
+/-- `ConvertSymbolToSignedInt ∘ ConvertSignedIntToSymbol = id` on the whole signed range -/
+theorem zigzag_roundtrip (w : Nat) (hw : 1 ≤ w) (x : Int)
+    (hlo : -(2^(w-1) : Int) ≤ x) (hhi : x < (2^(w-1) : Int)) :
+    ofSymbol (toSymbol w x) = x ∧ toSymbol w x < 2^w :=
+  ofSymbol_toSymbol w hw x hlo hhi
+
+example : ofSymbol (toSymbol 32 (-2147483648)) = -2147483648 ∧ toSymbol 32 (-2147483648) < 2^32 :=
+  zigzag_roundtrip 32 (by decide) _ (by decide) (by decide)
+
+/-- signed varints of every width -/
+theorem varint_signed_roundtrip {w : Nat} (hw : w ∈ [8, 16, 32, 64]) (x : Int)
+    (hlo : -(2^(w-1) : Int) ≤ x) (hhi : x < (2^(w-1) : Int)) (rest : Bytes) :
+    decVarintSigned w (encVarintSigned w x ++ rest) = some (x, rest) := by
+  have hw1 : 1 ≤ w := by rcases width_cases hw with h | h | h | h <;> omega
+  obtain ⟨h1, h2⟩ := ofSymbol_toSymbol w hw1 x hlo hhi
+  simp only [decVarintSigned, encVarintSigned, decVarint_enc hw _ h2 rest, h1]
+
+example : decVarintSigned 16 (encVarintSigned 16 (-32768) ++ [1, 2]) = some (-32768, [1, 2]) :=
+  varint_signed_roundtrip (by simp) _ (by decide) (by decide) _
+
+/-- `EncoderBuffer::Encode(T)` / `DecoderBuffer::Decode(T*)` for an `n`-byte scalar -/
+theorem scalar_roundtrip (n v : Nat) (hv : v < 256^n) (rest : Bytes) :
+    readLE n (writeLE n v ++ rest) = some (v, rest) := by
+  rw [readLE_writeLE, Nat.mod_eq_of_lt hv]
+
+example : readLE 4 (writeLE 4 0xDEADBEEF ++ [9]) = some (0xDEADBEEF, [9]) :=
+  scalar_roundtrip 4 _ (by decide) _
+
+/-! ### (b) bit sequences of the buffers, with and without stored size -/
+
+/-- `StartBitEncoding … PutBits* … EndBitEncoding` followed by
+    `StartBitDecoding … GetBits* … EndBitDecoding` returns the low `n_i` bits of every value,
+    the stored byte count (when present), and leaves the reader exactly at `rest`.
+    `ops` are the `(nbits, value)` pairs of the `PutBits` calls. -/
+theorem bits_roundtrip (withSize : Bool) (ops : List (Nat × Nat)) (rest : Bytes)
+    (hw : ∀ p ∈ ops, p.1 ≤ 32)
+    (hlen : withSize = true → ((putBitsAll ops).length + 7) / 8 < 2^64) :
+    decBitRegion false withSize (ops.map (·.1)) (encBitRegion withSize (putBitsAll ops) ++ rest) =
+      some ((if withSize then some (((putBitsAll ops).length + 7) / 8) else none,
+             ops.map (fun p => p.2 % 2^p.1)), rest) :=
+  decBitRegion_enc withSize ops rest hw hlen
+
+example : decBitRegion false true [3, 32, 0, 5]
+      (encBitRegion true (putBitsAll [(3, 5), (32, 0xFFFFFFFF), (0, 9), (5, 77)]) ++ [1, 2]) =
+    some ((some 5, [5, 0xFFFFFFFF, 0, 13]), [1, 2]) :=
+  bits_roundtrip true [(3, 5), (32, 0xFFFFFFFF), (0, 9), (5, 77)] [1, 2] (by decide) (by decide)
+
+/-- reading past the end of the buffer yields a zero bit and does not advance -/
+theorem getBit_past_end (r : BitReader) (h : r.cur = []) : r.getBit = (0, r) :=
+  getBit_nil r h
+
+example : (BitReader.start []).getBit = (0, BitReader.start []) := getBit_past_end _ rfl
+
+/-! ### (c) fastdiv -/
+
+/-- `fastdiv` with the table of the pinned source is exact division (proved for `x < 2^31`;
+    rABS only uses `x < 2^20`).  Beyond 2^31 the 32-bit sum `t + x` can wrap:
+    see `Draco.fastdiv_wraps`. -/
+theorem fastdiv_correct (x y : Nat) (hx : x < 2^31) (hy1 : 1 ≤ y) (hy2 : y ≤ 255) :
+    fastdiv Generated.fastdivTab x y = x / y :=
+  fastdiv_correct_31 x y hx hy1 hy2
+
+example : fastdiv Generated.fastdivTab 1048575 255 = 1048575 / 255 :=
+  fastdiv_correct _ _ (by decide) (by decide) (by decide)
+
+/-! ### (d) rABS and the binary coders -/
+
+/-- the rABS encoder state stays in `[L, 256·L)` -/
+theorem rabs_invariant (a : AnsCoder) (val : Bool) (p0 : Nat)
+    (ha : 4096 ≤ a.state ∧ a.state < 4096 * 256) (hp : 1 ≤ p0 ∧ p0 ≤ 255) :
+    4096 ≤ (rabsWrite Generated.fastdivTab a val p0).state ∧
+      (rabsWrite Generated.fastdivTab a val p0).state < 4096 * 256 :=
+  rabsWrite_valid Generated.fastdivTab divOK_generated a ha val p0 hp
+
+example : 4096 ≤ (rabsWrite Generated.fastdivTab ansWriteInit true 1).state ∧
+    (rabsWrite Generated.fastdivTab ansWriteInit true 1).state < 4096 * 256 :=
+  rabs_invariant _ _ _ (by decide) (by decide)
+
+/-- `rabs_desc_write` (bits pushed last-first) + `ans_write_end`, then `ans_read_init` +
+    `rabs_desc_read` return the bit list, for every probability 1..255 -/
+theorem rabs_roundtrip (p0 : Nat) (hp : 1 ≤ p0 ∧ p0 ≤ 255) (bits : List Bool) :
+    rabsDecodeBits p0 bits.length (rabsEncodeBits Generated.fastdivTab p0 bits) = some bits :=
+  rabs_decode_encode Generated.fastdivTab divOK_generated p0 hp bits
+
+example : rabsDecodeBits 200 5 (rabsEncodeBits Generated.fastdivTab 200 [true, false, false, true, true]) =
+    some [true, false, false, true, true] :=
+  rabs_roundtrip 200 (by decide) [true, false, false, true, true]
+
+/-- RAnsBitEncoder / RAnsBitDecoder: any sequence of `EncodeBit` /
+    `EncodeLeastSignificantBits32(n, v)` calls (`1 ≤ n ≤ 32`) is returned by the matching
+    decoder calls, whatever the floating point expression `zero_prob_raw` evaluates to.
+    (The size prefix is a 32-bit varint: fewer than 2^32 − 3 coded bits.) -/
+theorem ransBit_roundtrip (zeroProbRaw : Nat → Nat → Nat) (ops : List BitOp)
+    (hv : ∀ op ∈ ops, op.Valid) (hlen : (ops.map BitOp.width).sum + 3 < 2^32) (rest : Bytes) :
+    ransBitDecode false (ops.map BitOp.req)
+        (ransBitEncode Generated.fastdivTab zeroProbRaw ops ++ rest) =
+      some (ops.map BitOp.value, rest) :=
+  ransBit_decode_encode Generated.fastdivTab divOK_generated zeroProbRaw ops hv
+    (by rw [opsBits_length]; exact hlen) rest
+
+example : ransBitDecode false [.bit, .lsb32 32, .lsb32 1, .bit]
+      (ransBitEncode Generated.fastdivTab (fun n0 tot => (512 * n0 + tot) / (2 * tot))
+        [.bit true, .lsb32 32 0xFFFFFFFF, .lsb32 1 2, .bit false] ++ [42]) =
+    some ([1, 0xFFFFFFFF, 0, 0], [42]) :=
+  ransBit_roundtrip _ [.bit true, .lsb32 32 0xFFFFFFFF, .lsb32 1 2, .bit false]
+    (by decide) (by decide) [42]
+
+/-- AdaptiveRAnsBitEncoder / AdaptiveRAnsBitDecoder, for any probability model (the `double`
+    arithmetic of `update_probability` / `clamp_probability`) whose clamped probabilities stay
+    in [1, 255] -/
+theorem adaptive_roundtrip (pm : ProbModel) (hpm : ∀ s, 1 ≤ pm.p0 s ∧ pm.p0 s ≤ 255)
+    (ops : List BitOp) (hv : ∀ op ∈ ops, op.Valid)
+    (hlen : (ops.map BitOp.width).sum + 3 < 2^32) (rest : Bytes) :
+    adaptiveDecode pm (ops.map BitOp.req) (adaptiveEncode Generated.fastdivTab pm ops ++ rest) =
+      some (ops.map BitOp.value, rest) :=
+  adaptive_decode_encode Generated.fastdivTab divOK_generated pm hpm ops hv
+    (by rw [opsBits_length]; exact hlen) rest
+
+/-- an integer stand-in for the `double` model: p0 in 1/256 units, same update rule shape -/
+def demoPM : ProbModel := ⟨Nat, 128, fun s => max 1 (min 255 s), fun s b => (s * 127 + (if b then 0 else 256)) / 128⟩
+
+example : adaptiveDecode demoPM [.lsb32 7, .bit, .bit]
+      (adaptiveEncode Generated.fastdivTab demoPM [.lsb32 7 100, .bit true, .bit false] ++ [1]) =
+    some ([100, 1, 0], [1]) :=
+  adaptive_roundtrip demoPM (by intro s; simp [demoPM]; omega)
+    [.lsb32 7 100, .bit true, .bit false] (by decide) (by decide) [1]
+
+/-- FoldedBit32Encoder<RAnsBitEncoder> / FoldedBit32Decoder<RAnsBitDecoder> -/
+theorem folded_roundtrip (zeroProbRaw : Nat → Nat → Nat) (ops : List BitOp)
+    (hv : ∀ op ∈ ops, op.Valid) (hlen : ops.length + 3 < 2^32) (rest : Bytes) :
+    foldedRansDecode false (ops.map BitOp.req)
+        (foldedRansEncode Generated.fastdivTab zeroProbRaw ops ++ rest) =
+      some (ops.map BitOp.value, rest) :=
+  foldedRans_decode_encode Generated.fastdivTab divOK_generated zeroProbRaw ops hv hlen rest
+
+example : foldedRansDecode false [.lsb32 5, .bit, .lsb32 32]
+      (foldedRansEncode Generated.fastdivTab (fun _ _ => 128)
+        [.lsb32 5 21, .bit true, .lsb32 32 7] ++ []) = some ([21, 1, 7], []) :=
+  folded_roundtrip _ [.lsb32 5 21, .bit true, .lsb32 32 7] (by decide) (by decide) []
+
+/-- FoldedBit32Encoder<AdaptiveRAnsBitEncoder> / FoldedBit32Decoder<AdaptiveRAnsBitDecoder> -/
+theorem foldedAdaptive_roundtrip (pm : ProbModel) (hpm : ∀ s, 1 ≤ pm.p0 s ∧ pm.p0 s ≤ 255)
+    (ops : List BitOp) (hv : ∀ op ∈ ops, op.Valid) (hlen : ops.length + 3 < 2^32) (rest : Bytes) :
+    foldedDecode (adaptiveDecIface pm) (ops.map BitOp.req)
+        (foldedEncode (adaptiveEncIface Generated.fastdivTab pm) ops ++ rest) =
+      some (ops.map BitOp.value, rest) :=
+  foldedAdaptive_decode_encode Generated.fastdivTab divOK_generated pm hpm ops hv hlen rest
+
+example : foldedDecode (adaptiveDecIface demoPM) [.lsb32 3]
+      (foldedEncode (adaptiveEncIface Generated.fastdivTab demoPM) [.lsb32 3 5] ++ [8]) =
+    some ([5], [8]) :=
+  foldedAdaptive_roundtrip demoPM (by intro s; simp [demoPM]; omega) [.lsb32 3 5]
+    (by decide) (by decide) [8]
+
+/-- DirectBitEncoder / DirectBitDecoder: every decoder call returns `true` (`some`) and the
+    value of the matching encoder call -/
+theorem direct_roundtrip (ops : List BitOp) (hv : ∀ op ∈ ops, op.Valid)
+    (hlen : (ops.map BitOp.width).sum + 3 < 2^32) (rest : Bytes) :
+    directDecode (ops.map BitOp.req) (directEncode ops ++ rest) =
+      some (ops.map (fun op => some op.value), rest) :=
+  direct_decode_encode ops hv (by rw [opsBits_length]; exact hlen) rest
+
+example : directDecode [.lsb32 31, .lsb32 32, .bit]
+      (directEncode [.lsb32 31 5, .lsb32 32 0xFFFFFFFF, .bit true] ++ [3]) =
+    some ([some 5, some 0xFFFFFFFF, some 1], [3]) :=
+  direct_roundtrip [.lsb32 31 5, .lsb32 32 0xFFFFFFFF, .bit true] (by decide) (by decide) [3]
+
+/-- DirectBitDecoder past the end: `DecodeNextBit` yields `false` and does not move -/
+theorem direct_past_end (d : DirectDec) (h : d.pos = []) : d.nextBit = (false, d) := by
+  unfold DirectDec.nextBit; rw [h]
+
+example : (⟨[], 0⟩ : DirectDec).nextBit = (false, ⟨[], 0⟩) := direct_past_end _ rfl
+
+/-- SymbolBitEncoder / SymbolBitDecoder over any symbol coder that round-trips lists of 32-bit
+    symbols (`EncodeSymbols` / `DecodeSymbols`, one component) -/
+theorem symbolBit_roundtrip (encSymbols : List Nat → Bytes) (decSymbols : Nat → Rd (List Nat))
+    (hsym : ∀ (syms : List Nat) (rest : Bytes), (∀ s ∈ syms, s < 2^32) →
+      decSymbols syms.length (encSymbols syms ++ rest) = some (syms, rest))
+    (ops : List BitOp) (hv : ∀ op ∈ ops, op.Valid) (hlen : ops.length < 2^32) (rest : Bytes) :
+    symbolBitDecode decSymbols (ops.map BitOp.req) (symbolBitEncode encSymbols ops ++ rest) =
+      some (ops.map (fun op => some op.value), rest) :=
+  symbolBit_decode_encode encSymbols decSymbols hsym ops hv hlen rest
+
+/-- a trivial symbol coder (4 raw bytes per symbol) satisfying the hypothesis -/
+def rawSymEnc (syms : List Nat) : Bytes := syms.flatMap (writeLE 4)
+def rawSymDec (n : Nat) : Rd (List Nat) := fun bs =>
+  if bs.length < 4 * n then none else some (readWords32 n bs, bs.drop (4 * n))
+
+example : symbolBitDecode rawSymDec [.lsb32 9, .bit]
+      (symbolBitEncode rawSymEnc [.lsb32 9 1000, .bit true] ++ [6]) =
+    some ([some 488, some 1], [6]) :=
+  symbolBit_roundtrip rawSymEnc rawSymDec
+    (by
+      intro syms rest h
+      have hl := flatMap_writeLE_length syms
+      have hr := readWords32_flatMap syms rest h
+      unfold rawSymEnc rawSymDec
+      generalize syms.flatMap (writeLE 4) = body at *
+      have : ¬ (body ++ rest).length < body.length := by simp
+      simp only [← hl, this, if_false, hr, List.drop_left'])
+    [.lsb32 9 1000, .bit true] (by decide) (by decide) [6]
+
+/-- PROPERTY VIOLATION in the code (kept in the model as `none`): a request on an exhausted
+    `SymbolBitDecoder` calls `symbols_.back()` / `pop_back()` on an empty `std::vector` —
+    undefined behaviour, an out-of-bounds read in practice (input `00 00 00 00`, one call).
+    Only a `DRACO_DCHECK` guards it.  The class is not used by the codec itself. -/
+theorem symbolBit_exhausted (req : BitReq) : (symbolBitReq [] req).1 = none := by
+  cases req <;> rfl
+
+example : (symbolBitReq [] (.lsb32 5)).1 = none := symbolBit_exhausted _
+
+/-! ### constants regenerated from the working tree -/
+
+/-- The depth limits compiled into the varint decoder (probed from the working tree by the
+    translator) are the ones the model uses: an encoder output is never rejected for its length. -/
 theorem varint_depth_matches_source :
     Generated.varintMaxLen = [(varintMaxDepth 8 : Int), varintMaxDepth 16, varintMaxDepth 32, varintMaxDepth 64] := by
+  decide
+
+/-- the rABS constants of ans.h are the ones the model uses -/
+theorem ans_constants_match_source :
+    Generated.ansLBase = (ansL : Int) ∧ Generated.ansIoBase = (ansIO : Int) ∧
+    Generated.ansP8Precision = (ansP8 : Int) ∧ Generated.ansDivideByMultiply = 1 := by
   decide
 
 end Draco.C17
